@@ -92,6 +92,11 @@ $(B)/bin/est_exec: $(B)/harness/est_exec.o $(SHIM_OBJ) $(LIB_OBJ)
 	@mkdir -p $(dir $@)
 	@$(CC) $(SAN) -o $@ $^ $(WRAP) $(LDLIBS_REAL)
 
+# xpoll_exec: the real xpoll.c / active_fd.c driven directly; epoll_ctl observed at link time by the harness itself
+$(B)/bin/xpoll_exec: $(B)/harness/xpoll_exec.o $(LIB_OBJ)
+	@mkdir -p $(dir $@)
+	@$(CC) $(SAN) -o $@ $^ -Wl,--wrap=epoll_ctl $(LDLIBS_REAL)
+
 $(B)/bin/addr_exec: $(B)/harness/addr_exec.o $(LIB_OBJ)
 	@mkdir -p $(dir $@)
 	@$(CC) $(SAN) -o $@ $^ $(LDLIBS_REAL)
